@@ -2186,6 +2186,87 @@ def _flatten_else(fn: ast.FunctionDef) -> None:
     rewrite(fn.body)
 
 
+def _break_to_exit(fn: ast.FunctionDef) -> None:
+    """``for ..: .. break ..  else: E (leaves)``  followed by ``AFTER`` (at most 3 simple statements, the last a return / raise, the end of
+    its block): the only way to reach AFTER is a ``break`` of this loop, so every such ``break`` becomes a copy of AFTER and the else
+    suite follows the loop (exhaustion is the only way past it)."""
+
+    def simple_exit(after: list[ast.stmt]) -> bool:
+        return 0 < len(after) <= 3 and isinstance(after[-1], (ast.Return, ast.Raise)) \
+            and all(isinstance(x, (ast.Expr, ast.Assign, ast.AugAssign, ast.AnnAssign, ast.Return, ast.Raise, ast.Assert)) for x in after)
+
+    def leaves(body: list[ast.stmt]) -> bool:
+        return bool(body) and isinstance(body[-1], (ast.Return, ast.Raise))
+
+    def replace_breaks(block: list[ast.stmt], after: list[ast.stmt]) -> None:
+        i = 0
+        while i < len(block):
+            st = block[i]
+            if isinstance(st, ast.Break):
+                block[i:i + 1] = copy.deepcopy(after)
+                i += len(after)
+                continue
+            if isinstance(st, (ast.For, ast.While, ast.FunctionDef, ast.ClassDef)):
+                if isinstance(st, (ast.For, ast.While)):
+                    pass  # a nested loop owns its breaks (its else suite belongs to the outer level but cannot hold a break of ours... it can)
+                    replace_breaks(st.orelse, after)
+                i += 1
+                continue
+            for sub in _blocks(st):
+                replace_breaks(sub, after)
+            i += 1
+
+    def owned(node: ast.AST, top: bool = True) -> int:
+        """Number of break statements that belong to the loop `node` (any nesting of statements that are not loops / definitions)."""
+        n = 0
+        for ch in ast.iter_child_nodes(node):
+            if isinstance(ch, ast.Break):
+                n += 1
+            elif isinstance(ch, (ast.For, ast.While)):
+                n += sum(owned_stmt(x) for x in ch.orelse)
+            elif isinstance(ch, (ast.FunctionDef, ast.AsyncFunctionDef, ast.ClassDef, ast.Lambda)):
+                continue
+            elif isinstance(ch, ast.AST):
+                n += owned(ch, False)
+        return n
+
+    def owned_stmt(x: ast.stmt) -> int:
+        return 1 if isinstance(x, ast.Break) else owned(x, False)
+
+    def reachable(block: list[ast.stmt]) -> int:
+        """The breaks replace_breaks gets at."""
+        n = 0
+        for st in block:
+            if isinstance(st, ast.Break):
+                n += 1
+            elif isinstance(st, (ast.For, ast.While)):
+                n += reachable(st.orelse)
+            elif isinstance(st, (ast.FunctionDef, ast.ClassDef)):
+                continue
+            else:
+                for sub in _blocks(st):
+                    n += reachable(sub)
+        return n
+
+    def rewrite(block: list[ast.stmt]) -> None:
+        i = 0
+        while i < len(block):
+            st = block[i]
+            if isinstance(st, (ast.For, ast.While)) and st.orelse and leaves(st.orelse) and simple_exit(block[i + 1:]) \
+                    and not (isinstance(st, ast.While) and isinstance(st.test, ast.Constant)) \
+                    and sum(owned_stmt(x) for x in st.body) == reachable(st.body) > 0:
+                after = block[i + 1:]
+                replace_breaks(st.body, after)
+                del block[i + 1:]
+                block.extend(st.orelse)
+                st.orelse = []
+            for sub in _blocks(st):
+                rewrite(sub)
+            i += 1
+
+    rewrite(fn.body)
+
+
 def _inline_adjacent(fn: ast.FunctionDef) -> None:
     """``t = <any expression>`` immediately followed by a statement whose *first evaluated* expression is ``t`` (its only
     use): the definition moves into the use.  Nothing is evaluated in between, so this holds for impure values too."""
@@ -2528,9 +2609,49 @@ def _drop_pass(block: list[ast.stmt]) -> None:
         block[:] = keep or block[:1]
 
 
+def _helper_refs_to_lambdas(fn: ast.FunctionDef, inliner: "HelperInliner") -> None:
+    """``key=_by_name`` / ``map(_f, xs)`` with ``_f`` a private module-level function of later origin whose body is one ``return E``:
+    the reference becomes ``lambda <params>: E`` (what the call sites of the audited tree spell out)."""
+    shadow = {n.id for n in ast.walk(fn) if isinstance(n, ast.Name) and isinstance(n.ctx, ast.Store)} | {a.arg for a in ast.walk(fn) if isinstance(a, ast.arg)}
+
+    def lam(name: str) -> ast.Lambda | None:
+        if name in shadow or not name.startswith("_") or not inliner.is_new(name):
+            return None
+        mf = inliner._module_func(name)
+        if mf is None:
+            return None
+        d = mf[0]
+        body = [st for st in d.body if not (isinstance(st, ast.Expr) and isinstance(st.value, ast.Constant) and isinstance(st.value.value, str))]
+        if len(body) != 1 or not isinstance(body[0], ast.Return) or body[0].value is None or d.decorator_list:
+            return None
+        a = d.args
+        if a.vararg or a.kwarg or a.kwonlyargs or a.defaults or a.posonlyargs:
+            return None
+        if any(isinstance(x, (ast.Yield, ast.YieldFrom, ast.Await, ast.NamedExpr)) for x in ast.walk(body[0].value)):
+            return None
+        args = ast.arguments(posonlyargs=[], args=[ast.arg(arg=x.arg) for x in a.args], vararg=None, kwonlyargs=[], kw_defaults=[], kwarg=None, defaults=[])
+        return ast.Lambda(args=args, body=_StripCasts().visit(copy.deepcopy(body[0].value)))
+
+    for c in ast.walk(fn):
+        if not isinstance(c, ast.Call):
+            continue
+        for k in c.keywords:
+            if k.arg in ("key", "filter", "prune", "default") and isinstance(k.value, ast.Name):
+                l_ = lam(k.value.id)
+                if l_ is not None:
+                    k.value = ast.copy_location(l_, k.value)
+        if dotted(c.func) in ("map", "filter", "sorted", "min", "max", "itertools.starmap", "starmap") and c.args and isinstance(c.args[0], ast.Name):
+            l_ = lam(c.args[0].id)
+            if l_ is not None:
+                c.args[0] = ast.copy_location(l_, c.args[0])
+    ast.fix_missing_locations(fn)
+
+
 def normalize(fn: ast.FunctionDef, cls: ast.ClassDef | None, qual: str, inliner: HelperInliner | None, keep: set[str] | None = None, _depth: int = 0) -> ast.FunctionDef:
     new = copy.deepcopy(fn)
     new = _StripCasts().visit(new)
+    if inliner is not None:
+        _helper_refs_to_lambdas(new, inliner)
     if inliner is not None and inliner.new_consts:
         shadow = {n.id for n in ast.walk(new) if isinstance(n, ast.Name) and isinstance(n.ctx, ast.Store)} | {a.arg for a in ast.walk(new) if isinstance(a, ast.arg)}
         consts = {k: v for k, v in inliner.new_consts.items() if k not in shadow}
@@ -2560,6 +2681,7 @@ def normalize(fn: ast.FunctionDef, cls: ast.ClassDef | None, qual: str, inliner:
     _param_copies(new)
     _search_loops(new)
     _collect_loops(new)
+    _break_to_exit(new)
     new = inline_locals(new, keep)
     _inline_adjacent(new)
     _dead_copies(new)
